@@ -34,7 +34,7 @@ func uriCandidates(o *oracle, maxLen int) []string {
 	}
 	hosts := []string{"example.org", "1.2.3.4", "[::1]", "[fe80::1%25eth0]", "[::1", "::1]", "[]", "a b", ""}
 	ports := []string{"", ":", ":0", ":3478", ":65535", ":65536", ":99999", ":-1", ":+5", ":x", ":08"}
-	queries := []string{"", "?", "?transport=udp", "?transport=tcp", "?transport=sctp", "?transport", "?transport=", "?transport=udp&x=1", "?x=1", "?transport=udp&transport=tcp", "#frag", "?transport=udp#f"}
+	queries := []string{"", "?", "?transport=udp", "?transport=tcp", "?transport=sctp", "?transport", "?transport=", "?transport=udp&x=1", "?x=1", "?transport=udp&transport=tcp", "#frag", "?transport=udp#f", "?%zz", "?transport=%", "?transport=udp;x", "?;", "?a;b=1"}
 	for _, sc := range []string{"stun", "stuns", "turn", "turns", "http", ""} {
 		for _, h := range hosts {
 			for _, p := range ports {
@@ -229,6 +229,20 @@ func (o *oracle) oracleURIAccepted() {
 		if u.Scheme < SchemeTypeSTUN || u.Scheme > SchemeTypeTURNS || (u.Proto != ProtoTypeUDP && u.Proto != ProtoTypeTCP) || u.Host == "" || u.Port < 0 || u.Port > 65535 {
 			o.failf("ParseURI(%q) accepted {scheme %d host %q port %d proto %d}", raw, u.Scheme, u.Host, u.Port, u.Proto)
 			continue
+		}
+		// RFC 7064: a stun / stuns URI has no query component at all
+		if u.Scheme == SchemeTypeSTUN || u.Scheme == SchemeTypeSTUNS {
+			if i := strings.IndexByte(raw, '?'); i >= 0 {
+				q := raw[i+1:]
+				if j := strings.IndexByte(q, '#'); j >= 0 {
+					q = q[:j]
+				}
+				// a query made of separators only ("?", "?&") names no key at all and is tolerated
+				if strings.Trim(q, "&") != "" {
+					o.failf("ParseURI(%q) accepted a %s URI that carries the query %q", raw, u.Scheme, q)
+					continue
+				}
+			}
 		}
 		var again *URI
 		var err2 error
